@@ -97,6 +97,19 @@ pub mod datalog2 {
     }
     #[verifier::external_body]
     pub fn verif_shadows(values: &HashMap<u32, Term>, params: &Vec<u32>) -> (r: bool) ensures r == shadows(*values, params@) { unimplemented!() }
+    // printing (fmt): ASSUMED total
+    #[verifier::external_body] pub struct SymbolTable { _p: u8 }
+    impl SymbolTable {
+        #[verifier::external_body] pub fn print_term(&self, t: &Term) -> String { unimplemented!() }
+    }
+    impl Unary {
+        #[verifier::external_body] pub fn print(&self, value: String, symbols: &SymbolTable) -> String { unimplemented!() }
+    }
+    impl Binary {
+        #[verifier::external_body] pub fn print(&self, left: String, right: String, symbols: &SymbolTable) -> String { unimplemented!() }
+    }
+    // `params.iter().map(|s| symbols.print_term(&Term::Variable(*s))).collect::<Vec<_>>().join(", ")`
+    #[verifier::external_body] pub fn verif_join_params(params: &Vec<u32>, symbols: &SymbolTable) -> String { unimplemented!() }
     impl Clone for StackElem { #[verifier::external_body] fn clone(&self) -> (r: Self) ensures r == *self { unimplemented!() } }
 
     // ---- closures ------------------------------------------------------------------------------
@@ -236,6 +249,14 @@ pub mod datalog2 {
         //@end
     }
     impl Expression {
+        //@extract biscuit-auth/src/datalog/expression.rs :: impl Expression :: fn print
+        //@ attr #[verifier::exec_allows_no_decreases_clause]
+        //@ sub params\s*\.iter\(\)\s*\.map\(\|s\| symbols\.print_term\(&Term::Variable\(\*s\)\)\)\s*\.collect::<Vec<_>>\(\)\s*\.join\(", "\) => verif_join_params(params, symbols)
+        //@ ensures empty: self.ops@.len() == 0 ==> r is None
+        //@ loop 0 ghost it
+        //@ loop 0 invariant seq: it.seq().len() == self.ops@.len() && forall|i: int| 0 <= i < self.ops@.len() ==> *(#[trigger] it.seq()[i]) == self.ops@[i]
+        //@ loop 0 invariant empty: self.ops@.len() == 0 ==> stack@.len() == 0
+        //@end
         //@extract biscuit-auth/src/datalog/expression.rs :: impl Expression :: fn evaluate
         //@ attr #[verifier::exec_allows_no_decreases_clause]
         //@ sub_unless_gone ShadowedVariable :: values\s*\.keys\(\)\s*\.collect::<HashSet<_>>\(\)\s*\.intersection\(&params\.iter\(\)\.collect\(\)\)\s*\.next\(\)\s*\.is_some\(\) => verif_shadows(values, &params)
@@ -304,5 +325,6 @@ pub mod espec {
 //@canary all-nonbool-accepted :: datalog::expression::Binary::evaluate_with_closure :: Term::Bool(false) => return Ok(Term::Bool(false)),\n                        _ => return Err(error::Expression::InvalidType), ==>> Term::Bool(false) => return Ok(Term::Bool(false)),\n                        _ => {}
 //@canary shadowing-accepted :: datalog::expression::Expression::evaluate :: return Err(error::Expression::ShadowedVariable); ==>> ;
 //@canary-requires datalog::expression::Binary::evaluate_with_closure
+//@canary print-final-stack :: datalog::expression::Expression::print :: if stack.len() == 1 {\n            Some(stack.remove(0)) ==>> if stack.len() <= 1 {\n            Some(stack.remove(0))
 } // verus!
 fn main() {}
